@@ -96,6 +96,9 @@ func ruleR18_1(c *Check) {
 		}}
 	lr.run()
 	reportLayout(r, bf, lr, "block trailer ("+layoutString(fields)+")")
+	// the entry area handed to iterators ends where the trailer begins
+	eis, okE := lr.env[w.Field("table.Block.entriesIndexStart")]
+	r.Check(okE && eis.eq(fields[0].lo), bf, "Block.entriesIndexStart is where the entry-offset table begins", nil, "entriesIndexStart is not the start of the first trailer field")
 	// the prefix kept as Block.data = the writer's checksum input
 	if covered <= len(fields) && len(chk) == 1 {
 		want := fields[0].lo
@@ -315,7 +318,1067 @@ func ruleR18_2(c *Check) {
 	}
 }
 
+func ruleR18_3(c *Check) {
+	w := c.W
+	r := c.Rule("R18.3", "E4+E1", 10, "entry layout: Builder.addHelper appends header, key suffix, value in that order, the header holding overlap = len(key)-len(suffix) and diff = len(suffix), the suffix being the whole key for the first entry of a block and keyDiff(key) — the part after the longest common prefix with the block's base key — otherwise, and records the entry's offset before appending; blockIterator.setIdx cuts the entry as [offsets[i], offsets[i+1]) (the end of the entry area for the last one), reads the header first, the suffix as the next diff bytes, the value as the rest, and rebuilds the key as baseKey[:overlap]+suffix with baseKey taken from the first entry; header.Encode/Decode and headerSize agree on the header's size",
+		"any disagreement between the two sides shifts every key or value of a block by a few bytes")
+	ah := w.F("table.Builder.addHelper")
+	appendFn := w.Func("table.Builder.append")
+	allocFn := w.Func("table.Builder.allocate")
+	encFn := w.Func("table.header.Encode")
+	overlapF, diffF := w.Field("table.header.overlap"), w.Field("table.header.diff")
+	var keyParam types.Object
+	if ps := ah.Decl.Type.Params; ps != nil && len(ps.List) > 0 && len(ps.List[0].Names) > 0 {
+		keyParam = w.Info.Defs[ps.List[0].Names[0]]
+	}
+	// the header literal
+	var suffix types.Object
+	hdrOK := false
+	ah.walk(func(n ast.Node) bool {
+		cl, ok := n.(*ast.CompositeLit)
+		if !ok || namedOf(w.TypeOf(cl)) != w.Obj("table.header") {
+			return true
+		}
+		var ov, df ast.Expr
+		for _, el := range cl.Elts {
+			if kv, ok := el.(*ast.KeyValueExpr); ok {
+				if id, ok := kv.Key.(*ast.Ident); ok {
+					switch w.Use(id) {
+					case types.Object(overlapF):
+						ov = kv.Value
+					case types.Object(diffF):
+						df = kv.Value
+					}
+				}
+			}
+		}
+		if ov == nil || df == nil {
+			return true
+		}
+		// diff: uint16(len(S)); overlap: uint16(len(key) - len(S))
+		lenOf := func(e ast.Expr) types.Object {
+			e = unparen(e)
+			for {
+				c, ok := e.(*ast.CallExpr)
+				if !ok || len(c.Args) != 1 {
+					return nil
+				}
+				if tv, ok := w.Info.Types[c.Fun]; ok && tv.IsType() {
+					e = unparen(c.Args[0])
+					continue
+				}
+				if isBuiltin(w, c, "len") {
+					if id, ok := unparen(c.Args[0]).(*ast.Ident); ok {
+						return w.Use(id)
+					}
+				}
+				return nil
+			}
+		}
+		suffix = lenOf(df)
+		inner := unparen(ov)
+		for {
+			c, ok := inner.(*ast.CallExpr)
+			if ok && len(c.Args) == 1 {
+				if tv, ok := w.Info.Types[c.Fun]; ok && tv.IsType() {
+					inner = unparen(c.Args[0])
+					continue
+				}
+			}
+			break
+		}
+		if be, ok := inner.(*ast.BinaryExpr); ok && be.Op == token.SUB && suffix != nil {
+			hdrOK = lenOf(be.X) == keyParam && lenOf(be.Y) == suffix
+		}
+		return true
+	})
+	r.Check(hdrOK, ah, "header holds overlap = len(key)-len(suffix), diff = len(suffix)", nil, "the entry header is not built as {overlap: len(key)-len(suffix), diff: len(suffix)}")
+	// order: offset recorded, header, suffix, value
+	offStore := selStore(w.Field("table.bblock.entryOffsets"))
+	apps := sortedByPos(ah.Sites(selCall(appendFn)))
+	r.Check(len(apps) == 2, ah, "two appends (header, key suffix)", nil, "expected append(header) and append(suffix)")
+	if len(apps) == 2 && suffix != nil {
+		a0, a1 := apps[0].(*ast.CallExpr).Args[0], apps[1].(*ast.CallExpr).Args[0]
+		isEnc := false
+		if c0, ok := unparen(w.from(a0)).(*ast.CallExpr); ok && w.Callee(c0) == types.Object(encFn) {
+			isEnc = true
+		}
+		id1, _ := unparen(a1).(*ast.Ident)
+		r.Check(isEnc, ah, "first the encoded header", apps[0], "the first append is not header.Encode()")
+		r.Check(id1 != nil && w.Use(id1) == suffix, ah, "then the key suffix the header describes", apps[1], "the second append is not the suffix whose length is stored in the header")
+		r.DomAll(ah, "header before suffix", selNode(apps[1]), 0, selNode(apps[0]), 0)
+		r.DomAll(ah, "entry offset recorded before its bytes are appended", selNode(apps[0]), 0, offStore, 0)
+		for _, al := range ah.Sites(selCall(allocFn)) {
+			r.DomAll(ah, "value after header and suffix", selNode(al), 0, selNode(apps[1]), 0)
+		}
+		// the recorded offset is the current end of the block
+		for _, s := range ah.Sites(offStore) {
+			r.Check(w.mentions(s, w.Field("table.bblock.end")), ah, "recorded offset is the block's current end", s, "the entry offset is not bblock.end")
+		}
+	}
+	// the suffix: whole key for the first entry (base key empty), keyDiff(key) otherwise
+	if suffix != nil {
+		kd := w.Func("table.Builder.keyDiff")
+		baseKey := w.Field("table.bblock.baseKey")
+		whole, diffd := false, false
+		for _, s := range ah.Sites(selStoreVar(suffix)) {
+			as, ok := s.(*ast.AssignStmt)
+			if !ok || len(as.Rhs) != 1 {
+				continue
+			}
+			op, g := w.guardRel(w.Guards(ah, as), func(e ast.Expr) bool {
+				c, ok := unparen(e).(*ast.CallExpr)
+				return ok && isBuiltin(w, c, "len") && len(c.Args) == 1 && w.fieldOf(c.Args[0]) == baseKey
+			}, w.isConst(0), false)
+			if id, ok := unparen(as.Rhs[0]).(*ast.Ident); ok && w.Use(id) == keyParam {
+				whole = g != nil && op == token.EQL
+				r.Check(whole, ah, "whole key stored only for the first entry of a block", as, "the whole key is stored as suffix although the block has a base key")
+			} else if w.isCallTo(as.Rhs[0], kd) {
+				diffd = g != nil && (op == token.NEQ || op == token.GTR)
+				r.Check(diffd, ah, "later entries store keyDiff(key)", as, "keyDiff is used although the block has no base key yet")
+			}
+		}
+		r.Check(whole && diffd, ah, "suffix is the key for the first entry and keyDiff(key) afterwards", nil, "the two definitions of the key suffix are not both present")
+		// base key set from the key in the first-entry branch
+		okBase := false
+		for _, s := range ah.Sites(selStore(baseKey)) {
+			if w.mentions(s, keyParam) {
+				okBase = true
+			}
+		}
+		r.Check(okBase, ah, "base key is the block's first key", nil, "bblock.baseKey is not set from the first key")
+		// keyDiff: newKey[i:] with i the first index where newKey and baseKey differ
+		kf := w.F("table.Builder.keyDiff")
+		okRet, okCmp := false, false
+		kf.walk(func(n ast.Node) bool {
+			switch x := n.(type) {
+			case *ast.ReturnStmt:
+				if len(x.Results) == 1 {
+					if se, ok := unparen(x.Results[0]).(*ast.SliceExpr); ok && se.Low != nil && se.High == nil {
+						if _, isId := unparen(se.Low).(*ast.Ident); isId {
+							okRet = true
+						}
+					}
+				}
+			case *ast.IfStmt:
+				if be, ok := unparen(x.Cond).(*ast.BinaryExpr); ok && be.Op == token.NEQ && w.terminates(x.Body.List) {
+					a, b := unparen(be.X), unparen(be.Y)
+					ia, okA := a.(*ast.IndexExpr)
+					ib, okB := b.(*ast.IndexExpr)
+					if okA && okB && w.norm(ia.Index, nil) == w.norm(ib.Index, nil) && (w.fieldOf(ia.X) == baseKey) != (w.fieldOf(ib.X) == baseKey) {
+						okCmp = true
+					}
+				}
+			}
+			return true
+		})
+		r.Check(okRet && okCmp, kf, "keyDiff returns the key from the first differing byte on", nil, "keyDiff is not `for i…{ if newKey[i] != baseKey[i] {break} }; return newKey[i:]`")
+	}
+	// header size: Encode returns a slice of an N-byte array, headerSize == N
+	var encN int64 = -1
+	w.F("table.header.Encode").walk(func(n ast.Node) bool {
+		if vs, ok := n.(*ast.ValueSpec); ok && len(vs.Names) == 1 {
+			if at, ok := w.TypeOf(vs.Names[0]).Underlying().(*types.Array); ok {
+				encN = at.Len()
+			}
+		}
+		return true
+	})
+	hsObj, _ := w.Obj("table.headerSize").(*types.Const)
+	var hsVal int64 = -2
+	if hsObj != nil {
+		if v, ok := constantInt64(hsObj); ok {
+			hsVal = v
+		}
+	}
+	r.Check(encN > 0 && encN == hsVal, w.F("table.header.Encode"), "header.Encode writes headerSize bytes", nil, "header.Encode writes "+itoa(encN)+" bytes, headerSize is "+itoa(hsVal))
+	// reader: setIdx
+	si := w.F("table.blockIterator.setIdx")
+	dataFld := w.Field("table.blockIterator.data")
+	offsFld := w.Field("table.blockIterator.entryOffsets")
+	// entryData := data[offsets[i] : end] with end = offsets[i+1] or len(data) for the last entry
+	var entryVar types.Object
+	var lowE, highE ast.Expr
+	si.walk(func(n ast.Node) bool {
+		as, ok := n.(*ast.AssignStmt)
+		if !ok || len(as.Lhs) != 1 || len(as.Rhs) != 1 {
+			return true
+		}
+		se, ok := unparen(as.Rhs[0]).(*ast.SliceExpr)
+		if !ok || w.fieldOf(se.X) != dataFld || se.Low == nil || se.High == nil {
+			return true
+		}
+		if _, isIdx := unparen(w.from(se.Low)).(*ast.CallExpr); !isIdx {
+			if _, isIx := unparen(w.from(se.Low)).(*ast.IndexExpr); !isIx {
+				return true
+			}
+		}
+		if id, ok := as.Lhs[0].(*ast.Ident); ok {
+			entryVar, lowE, highE = w.Use(id), se.Low, se.High
+		}
+		return true
+	})
+	r.Check(entryVar != nil, si, "entry cut out of the block", nil, "no `entry := data[start:end]` in setIdx")
+	if entryVar != nil {
+		// start = offsets[i]
+		okStart := false
+		ast.Inspect(w.from(lowE), func(n ast.Node) bool {
+			if ix, ok := n.(*ast.IndexExpr); ok && w.fieldOf(ix.X) == offsFld {
+				okStart = true
+			}
+			return true
+		})
+		r.Check(okStart, si, "entry starts at its recorded offset", lowE, "the entry does not start at entryOffsets[i]")
+		// end: defs of the end variable: len(data) under idx+1 == len(offsets), offsets[idx+1] otherwise
+		endLast, endNext := false, false
+		if id, ok := unparen(highE).(*ast.Ident); ok {
+			if v, ok := w.Use(id).(*types.Var); ok {
+				for _, s := range si.Sites(selStoreVar(v)) {
+					as, ok := s.(*ast.AssignStmt)
+					if !ok || len(as.Rhs) != 1 {
+						continue
+					}
+					rhs := unparen(w.from(as.Rhs[0]))
+					isLenData := func(e ast.Expr) bool {
+						c, ok := unparen(e).(*ast.CallExpr)
+						return ok && isBuiltin(w, c, "len") && len(c.Args) == 1 && w.fieldOf(c.Args[0]) == dataFld
+					}
+					isLenOffs := func(e ast.Expr) bool {
+						c, ok := unparen(e).(*ast.CallExpr)
+						return ok && isBuiltin(w, c, "len") && len(c.Args) == 1 && w.fieldOf(c.Args[0]) == offsFld
+					}
+					gs := w.Guards(si, as)
+					lastGuard := 0
+					for _, g := range gs {
+						// idx+1 compared with len(entryOffsets): idx is the iterator's index field or setIdx's parameter
+						isNextIdx := func(e ast.Expr) bool {
+							a, b, ok := w.linear(si, e, func(x ast.Expr) bool {
+								if w.fieldOf(x) == w.Field("table.blockIterator.idx") {
+									return true
+								}
+								id, isId := x.(*ast.Ident)
+								if !isId {
+									return false
+								}
+								v, isVar := w.Use(id).(*types.Var)
+								return isVar && isParam(si, v)
+							}, 0)
+							return ok && a == 1 && b == 1
+						}
+						if op, ok := w.cmpRoles(g.Cond, g.Val, isNextIdx, isLenOffs); ok {
+							switch op {
+							case token.EQL:
+								lastGuard = 1
+							case token.NEQ:
+								lastGuard = -1
+							}
+						}
+					}
+					if isLenData(rhs) {
+						endLast = lastGuard == 1
+						r.Check(endLast, si, "the last entry ends where the entry area ends", as, "len(data) is used as the entry's end without `idx+1 == len(entryOffsets)`")
+					} else {
+						hasNext := false
+						ast.Inspect(rhs, func(n ast.Node) bool {
+							if ix, ok := n.(*ast.IndexExpr); ok && w.fieldOf(ix.X) == offsFld {
+								if be, ok := unparen(ix.Index).(*ast.BinaryExpr); ok && be.Op == token.ADD {
+									if v, isC := w.constInt(be.Y); isC && v == 1 {
+										hasNext = true
+									}
+								}
+							}
+							return true
+						})
+						if hasNext {
+							endNext = lastGuard == -1
+							r.Check(endNext, si, "other entries end at the next entry's offset", as, "entryOffsets[idx+1] is used without excluding the last entry")
+						}
+					}
+				}
+			}
+		}
+		r.Check(endLast && endNext, si, "entry end: next offset, or end of the entry area for the last entry", nil, "the two definitions of the entry's end are not both present")
+		// parse of the entry with the layout reader: [header | suffix(diff) | value(rest)]
+		fields := []lfield{
+			{kind: "bytes", sym: "headerSize", size: affC(hsVal), lo: affC(0), hi: affC(hsVal)},
+			{kind: "bytes", sym: "diff", size: affS("diff"), lo: affC(hsVal), hi: affC(hsVal).add(affS("diff"), 1)},
+			{kind: "bytes", sym: "value", size: affS("value"), lo: affC(hsVal).add(affS("diff"), 1), hi: affS("L")},
+		}
+		lr := &layoutReader{w: w, f: si, fields: fields,
+			isLen: func(e ast.Expr) bool {
+				c, ok := e.(*ast.CallExpr)
+				if !ok || len(c.Args) != 1 || !isBuiltin(w, c, "len") {
+					return false
+				}
+				id, ok := unparen(c.Args[0]).(*ast.Ident)
+				return ok && w.Use(id) == entryVar
+			},
+			region: func(n ast.Node) (bool, ast.Expr, ast.Expr, ast.Expr, ast.Expr) {
+				se, ok := n.(*ast.SliceExpr)
+				if !ok {
+					return false, nil, nil, nil, nil
+				}
+				id, ok := unparen(se.X).(*ast.Ident)
+				if !ok || w.Use(id) != entryVar {
+					return false, nil, nil, nil, nil
+				}
+				return true, se.Low, se.High, nil, nil
+			}}
+		lr.presetField = map[*types.Var]aff{diffF: affS("diff")}
+		lr.run()
+		var k keyer
+		for _, p := range lr.problems {
+			r.Check(false, si, k.key("entry parsed as header, suffix, value", w, p.node), p.node, p.msg)
+		}
+		r.Check(fields[1].reads+lr.fields[1].reads > 0, si, "key suffix read as the diff bytes after the header", nil, "setIdx does not slice entry[headerSize : headerSize+diff]")
+		r.Check(lr.fields[2].reads > 0, si, "value is the rest of the entry", nil, "setIdx does not slice entry[headerSize+diff:]")
+		// header decoded from the start of the entry
+		decOK := false
+		si.walk(func(n ast.Node) bool {
+			if call, ok := n.(*ast.CallExpr); ok && w.Callee(call) == types.Object(w.Func("table.header.Decode")) && len(call.Args) == 1 {
+				if id, ok := unparen(call.Args[0]).(*ast.Ident); ok && w.Use(id) == entryVar {
+					decOK = true
+				}
+			}
+			return true
+		})
+		r.Check(decOK, si, "header decoded from the start of the entry", nil, "header.Decode is not applied to the entry")
+		// key = key[:overlap] + suffix
+		keyFld := w.Field("table.blockIterator.key")
+		okKey := false
+		for _, s := range si.Sites(selStore(keyFld)) {
+			as, ok := s.(*ast.AssignStmt)
+			if !ok || len(as.Rhs) != 1 {
+				continue
+			}
+			call, ok := unparen(as.Rhs[0]).(*ast.CallExpr)
+			if !ok || !isBuiltin(w, call, "append") || len(call.Args) != 2 || !call.Ellipsis.IsValid() {
+				continue
+			}
+			se, ok := unparen(call.Args[0]).(*ast.SliceExpr)
+			if !ok || w.fieldOf(se.X) != keyFld || se.High == nil || w.fieldOf(w.from(se.High)) != overlapF {
+				continue
+			}
+			if idx := lr.regionOf(call.Args[1]); idx == 1 {
+				okKey = true
+			}
+		}
+		r.Check(okKey, si, "key rebuilt as key[:overlap] + suffix", nil, "no `key = append(key[:h.overlap], suffix...)` with the suffix read from the entry")
+		// key[:overlap] is a prefix of the base key: refreshed from baseKey when the overlap grows
+		bk := w.Field("table.blockIterator.baseKey")
+		okRefresh := false
+		for _, s := range si.Sites(selStore(keyFld)) {
+			if !w.mentions(s, bk) {
+				continue
+			}
+			op, g := w.guardRel(w.Guards(si, s), w.isField(overlapF), w.isField(w.Field("table.blockIterator.prevOverlap")), false)
+			okRefresh = g != nil && (op == token.GTR || op == token.GEQ)
+		}
+		r.Check(okRefresh, si, "shared prefix copied from the base key when the overlap grows", nil, "key[:overlap] is not refreshed from baseKey under `overlap > prevOverlap`")
+		// baseKey = data[headerSize : headerSize+diff] of the first entry
+		okBK := false
+		for _, s := range si.Sites(selStore(bk)) {
+			as, ok := s.(*ast.AssignStmt)
+			if !ok || len(as.Rhs) != 1 {
+				continue
+			}
+			se, ok := unparen(as.Rhs[0]).(*ast.SliceExpr)
+			if !ok || w.fieldOf(se.X) != dataFld || se.Low == nil || se.High == nil {
+				continue
+			}
+			lo, ok1 := lr.eval(se.Low)
+			hi, ok2 := lr.eval(se.High)
+			okBK = ok1 && ok2 && lo.eq(fields[1].lo) && hi.eq(fields[1].hi)
+		}
+		r.Check(okBK, si, "base key is the first entry's suffix (its whole key)", nil, "baseKey is not data[headerSize : headerSize+diff] of the block's first entry")
+	}
+	// setBlock: the entry area excludes the trailer
+	sb := w.F("table.blockIterator.setBlock")
+	okSB := false
+	for _, s := range sb.Sites(selStore(dataFld)) {
+		as, ok := s.(*ast.AssignStmt)
+		if !ok || len(as.Rhs) != 1 {
+			continue
+		}
+		if se, ok := unparen(as.Rhs[0]).(*ast.SliceExpr); ok && se.Low == nil && se.High != nil && w.fieldOf(se.X) == w.Field("table.Block.data") && w.fieldOf(se.High) == w.Field("table.Block.entriesIndexStart") {
+			okSB = true
+		}
+	}
+	r.Check(okSB, sb, "entry area is the block up to the entry-offset table", nil, "blockIterator.data is not Block.data[:entriesIndexStart]")
+}
+
+func ruleR18_4(c *Check) {
+	w := c.W
+	r := c.Rule("R18.4", "E1+E4", 10, "transformations are undone in mirror order: Builder.handleBlock compresses and then encrypts a block, Table.block decrypts and then decompresses it; the block checksum is computed on plain data (before the block is handed to handleBlock) and verified after decrypt+decompress; Builder.Done checksums the index after encrypting it and Table.initIndex verifies before readTableIndex decrypts; the encrypt/decrypt and compress/decompress decisions are the same predicates (data key present; Options.Compression), every compression type has both directions; Builder.encrypt puts the IV after the ciphertext and Table.decrypt takes it from there",
+		"a block decompressed before it is decrypted, or verified against a checksum of different bytes, never reads back")
+	hb := w.F("table.Builder.handleBlock")
+	comp, enc := selCallName(w, "table.Builder.compressData"), selCallName(w, "table.Builder.encrypt")
+	r.Exists(len(hb.Sites(comp)) == 1 && len(hb.Sites(enc)) == 1, hb, "compress and encrypt sites", nil, "expected one compressData and one encrypt call in handleBlock")
+	// (both sit in the per-block loop: the order is that of the loop body's statements)
+	if cs, es := hb.Sites(comp), hb.Sites(enc); len(cs) == 1 && len(es) == 1 {
+		stmtIn := func(n ast.Node) (ast.Stmt, []ast.Stmt) {
+			for p := n; p != nil; p = w.parentOf(p) {
+				if st, ok := p.(ast.Stmt); ok {
+					if blk, ok := w.parentOf(p).(*ast.BlockStmt); ok {
+						if _, isLoop := w.parentOf(blk).(*ast.RangeStmt); isLoop {
+							return st, blk.List
+						}
+						if _, isLoop := w.parentOf(blk).(*ast.ForStmt); isLoop {
+							return st, blk.List
+						}
+					}
+				}
+			}
+			return nil, nil
+		}
+		sc, lc := stmtIn(cs[0])
+		se, le := stmtIn(es[0])
+		okOrder := sc != nil && se != nil && len(lc) > 0 && len(le) > 0 && lc[0] == le[0] && sc.Pos() < se.Pos()
+		r.Check(okOrder, hb, "a block is compressed before it is encrypted", es[0], "encrypt does not follow compressData in the per-block loop body")
+	}
+	bf := w.F("table.Table.block")
+	dec, decomp := selCallName(w, "table.Table.decrypt"), selCallName(w, "table.Table.decompress")
+	r.Exists(len(bf.Sites(dec)) == 1 && len(bf.Sites(decomp)) == 1, bf, "decrypt and decompress sites", nil, "expected one decrypt and one decompress call in Table.block")
+	r.NeverAfterAll(bf, "no decryption after decompression", decomp, 0, dec, 0)
+	r.DomAll(bf, "trailer parsed after decompression", selStore(w.Field("table.Block.entryOffsets")), 0, decomp, 0)
+	for _, s := range bf.Sites(selCallName(w, "table.Block.verifyCheckSum")) {
+		r.DomAll(bf, "block verified after decrypt and decompress", selNode(s), 0, decomp, 0)
+	}
+	// guards: encrypt under shouldEncrypt, decrypt under shouldDecrypt; both predicates are DataKey != nil
+	for _, p := range []struct {
+		f    *Fn
+		site Sel
+		pred string
+	}{{hb, enc, "table.Builder.shouldEncrypt"}, {bf, dec, "table.Table.shouldDecrypt"}, {w.F("table.Builder.Done"), enc, "table.Builder.shouldEncrypt"}, {w.F("table.Table.readTableIndex"), dec, "table.Table.shouldDecrypt"}} {
+		pf := w.Func(p.pred)
+		for _, s := range p.f.Sites(p.site) {
+			g := HasGuard(w.Guards(p.f, s), true, func(e ast.Expr) bool { return w.isCallTo(e, pf) })
+			r.Check(g != nil, p.f, "cipher applied exactly when a data key is set", s, "the call is not under "+p.pred+"()")
+		}
+	}
+	dk := w.Field("table.Options.DataKey")
+	for _, name := range []string{"table.Builder.shouldEncrypt", "table.Table.shouldDecrypt"} {
+		body, f := w.tinyBody(w.Func(name))
+		okP := false
+		if body != nil {
+			if op, ok := w.cmpRoles(body, true, w.isField(dk), isNil); ok && op == token.NEQ {
+				okP = true
+			}
+		}
+		r.Check(okP, f, "predicate is `DataKey != nil`", nil, name+" is not `opt.DataKey != nil`")
+	}
+	// compression: same option on both sides, both directions for every type
+	compF := w.Field("table.Options.Compression")
+	cd := w.F("table.Builder.compressData")
+	dc := w.F("table.Table.decompress")
+	casesOf := func(f *Fn) map[string]bool {
+		out := map[string]bool{}
+		f.walk(func(n ast.Node) bool {
+			sw, ok := n.(*ast.SwitchStmt)
+			if !ok || sw.Tag == nil || w.fieldOf(sw.Tag) != compF {
+				return true
+			}
+			for _, cs := range sw.Body.List {
+				cc := cs.(*ast.CaseClause)
+				for _, e := range cc.List {
+					if id := lastIdent(e); id != nil {
+						if cn, ok := w.Use(id).(*types.Const); ok {
+							// a case that only returns an error does not count as support
+							errOnly := len(cc.Body) == 1
+							if errOnly {
+								rs, isRet := cc.Body[0].(*ast.ReturnStmt)
+								errOnly = isRet && len(rs.Results) >= 1 && !isNil(rs.Results[len(rs.Results)-1]) && w.isErrorValue(rs.Results[len(rs.Results)-1])
+							}
+							if !errOnly {
+								out[cn.Name()] = true
+							}
+						}
+					}
+				}
+			}
+			return true
+		})
+		return out
+	}
+	cw, cr := casesOf(cd), casesOf(dc)
+	r.Exists(len(cw) >= 2, cd, "compression types handled by the writer", nil, "compressData does not switch on Options.Compression")
+	for name := range cw {
+		r.Check(cr[name], dc, "compression type "+name+" can be read back", nil, "compressData handles "+name+" but decompress does not")
+	}
+	for name := range cr {
+		r.Check(cw[name], cd, "compression type "+name+" is written as the reader expects", nil, "decompress handles "+name+" but compressData does not")
+	}
+	// handleBlock compresses exactly when Compression != None
+	for _, s := range hb.Sites(comp) {
+		okG := false
+		for _, g := range w.Guards(hb, s) {
+			e := w.from(g.Cond)
+			if op, ok := w.cmpRoles(e, g.Val, w.isField(compF), func(x ast.Expr) bool { id := lastIdent(x); return id != nil && id.Name == "None" }); ok && op == token.NEQ {
+				okG = true
+			}
+		}
+		r.Check(okG, hb, "a block is compressed exactly when a compression type is set", s, "compressData is not under `Compression != None`")
+	}
+	// checksum of a block is taken before the block is handed over for compression/encryption
+	fb := w.F("table.Builder.finishBlock")
+	for _, s := range fb.Sites(selSend(w.Field("table.Builder.blockChan"))) {
+		r.DomAll(fb, "block checksummed before it is compressed/encrypted", selNode(s), 0, selCallName(w, "table.Builder.calculateChecksum"), 0)
+	}
+	// index: verified before decrypted
+	ii := w.F("table.Table.initIndex")
+	vsel := selPred("VerifyChecksum", func(w *World, f *Fn, n ast.Node) bool {
+		call, ok := n.(*ast.CallExpr)
+		if !ok {
+			return false
+		}
+		fn, _ := w.Callee(call).(*types.Func)
+		return fn != nil && fn.Name() == "VerifyChecksum"
+	})
+	r.DomAll(ii, "index verified before it is decrypted", selCallName(w, "table.Table.readTableIndex"), 0, vsel, 0)
+	// IV placement
+	ef := w.F("table.Builder.encrypt")
+	var dataP, ivV types.Object
+	if ps := ef.Decl.Type.Params; ps != nil && len(ps.List) == 1 && len(ps.List[0].Names) == 1 {
+		dataP = w.Info.Defs[ps.List[0].Names[0]]
+	}
+	ef.walk(func(n ast.Node) bool {
+		if as, ok := n.(*ast.AssignStmt); ok && len(as.Rhs) == 1 {
+			if call, ok := unparen(as.Rhs[0]).(*ast.CallExpr); ok {
+				if fn, _ := w.Callee(call).(*types.Func); fn != nil && fn.Name() == "GenerateIV" {
+					if id, ok := as.Lhs[0].(*ast.Ident); ok {
+						ivV = w.Use(id)
+					}
+				}
+			}
+		}
+		return true
+	})
+	okCipher, okIV := false, false
+	isLenOf := func(e ast.Expr, o types.Object) bool {
+		c, ok := unparen(e).(*ast.CallExpr)
+		if !ok || !isBuiltin(w, c, "len") || len(c.Args) != 1 {
+			return false
+		}
+		id, ok := unparen(c.Args[0]).(*ast.Ident)
+		return ok && w.Use(id) == o
+	}
+	ef.walk(func(n ast.Node) bool {
+		call, ok := n.(*ast.CallExpr)
+		if !ok {
+			return true
+		}
+		if fn, _ := w.Callee(call).(*types.Func); fn != nil && fn.Name() == "XORBlock" && len(call.Args) == 4 {
+			if se, ok := unparen(call.Args[0]).(*ast.SliceExpr); ok && se.Low == nil && se.High != nil && isLenOf(se.High, dataP) {
+				if id, ok := unparen(call.Args[3]).(*ast.Ident); ok && w.Use(id) == ivV {
+					okCipher = true
+				}
+			}
+		}
+		if isBuiltin(w, call, "copy") && len(call.Args) == 2 {
+			if se, ok := unparen(call.Args[0]).(*ast.SliceExpr); ok && se.Low != nil && se.High == nil && isLenOf(se.Low, dataP) {
+				if id, ok := unparen(call.Args[1]).(*ast.Ident); ok && w.Use(id) == ivV {
+					okIV = true
+				}
+			}
+		}
+		return true
+	})
+	r.Check(okCipher && okIV && ivV != nil, ef, "ciphertext in dst[:len(data)], IV in dst[len(data):]", nil, "Builder.encrypt does not lay out ciphertext followed by the IV it encrypted with")
+	df := w.F("table.Table.decrypt")
+	var dData types.Object
+	if ps := df.Decl.Type.Params; ps != nil && len(ps.List) >= 1 && len(ps.List[0].Names) >= 1 {
+		dData = w.Info.Defs[ps.List[0].Names[0]]
+	}
+	bs := w.ObjIn("crypto/aes", "BlockSize")
+	okTail, okHead := false, false
+	df.walk(func(n ast.Node) bool {
+		se, ok := n.(*ast.SliceExpr)
+		if !ok {
+			return true
+		}
+		id, ok := unparen(se.X).(*ast.Ident)
+		if !ok || w.Use(id) != dData {
+			return true
+		}
+		cut := func(e ast.Expr) bool {
+			be, ok := unparen(e).(*ast.BinaryExpr)
+			return ok && be.Op == token.SUB && isLenOf(be.X, dData) && (w.mentions(be.Y, bs) || func() bool { v, isC := w.constInt(be.Y); return isC && v == 16 }())
+		}
+		if se.Low != nil && se.High == nil && cut(se.Low) {
+			okTail = true
+		}
+		if se.Low == nil && se.High != nil && cut(se.High) {
+			okHead = true
+		}
+		return true
+	})
+	r.Check(okTail && okHead, df, "IV is the last aes.BlockSize bytes, ciphertext the rest", nil, "Table.decrypt does not split data[:len-BlockSize] / data[len-BlockSize:]")
+	giv := w.ByObj[w.ObjIn(modPath+"/y", "GenerateIV").(*types.Func)]
+	okLen := false
+	if giv != nil {
+		giv.walk(func(n ast.Node) bool {
+			if call, ok := n.(*ast.CallExpr); ok && isBuiltin(w, call, "make") && len(call.Args) >= 2 && (w.mentions(call.Args[1], bs) || func() bool { v, isC := w.constInt(call.Args[1]); return isC && v == 16 }()) {
+				okLen = true
+			}
+			return true
+		})
+	}
+	r.Check(okLen, giv, "the IV is aes.BlockSize bytes long", nil, "GenerateIV does not make an aes.BlockSize IV")
+}
+
+func lastIdent(e ast.Expr) *ast.Ident {
+	switch x := unparen(e).(type) {
+	case *ast.Ident:
+		return x
+	case *ast.SelectorExpr:
+		return x.Sel
+	}
+	return nil
+}
+
+func ruleR18_5(c *Check) {
+	w := c.W
+	r := c.Rule("R18.5", "E1+E6", 10, "table metadata follows the entries: every public add (Add, AddStaleKey) reaches addHelper, which records the key hash for every entry and raises maxVersion to the entry's version when it is larger; buildIndex stores maxVersion and the number of hashes; the block index lists every block with its first key, a start offset that is the sum of the preceding block lengths and its length, in blockList order — the order buildData.Copy writes them in; Table.initIndex copies MaxVersion and KeyCount from the index; the smallest key is the first block's base key and the biggest key is where a reverse iterator lands after Rewind, both copied",
+		"MaxVersion feeds the timestamp oracle after re-open and table filtering by SinceTs; smallest/biggest decide which tables a read consults")
+	ah := w.F("table.Builder.addHelper")
+	mv := w.Field("table.Builder.maxVersion")
+	kh := w.Field("table.Builder.keyHashes")
+	for _, name := range []string{"table.Builder.Add", "table.Builder.AddStaleKey"} {
+		f := w.F(name)
+		r.ExitsNeed(f, "addHelper", selCallFn(ah), 2, exitAll)
+	}
+	for _, s := range ah.Sites(selStore(kh)) {
+		r.Check(len(w.Guards(ah, s)) == 0, ah, "every entry's key hash is recorded", s, "the key hash is recorded only under a condition")
+	}
+	r.Exists(len(ah.Sites(selStore(kh))) == 1, ah, "key hash recorded", nil, "addHelper does not append to keyHashes")
+	pt := w.Func("y.ParseTs")
+	nmv := 0
+	for _, s := range ah.Sites(selStore(mv)) {
+		nmv++
+		op, g := w.guardRel(w.Guards(ah, s), func(e ast.Expr) bool { return w.isCallTo(e, pt) }, w.isField(mv), false)
+		as, _ := s.(*ast.AssignStmt)
+		okRhs := as != nil && len(as.Rhs) == 1 && w.isCallTo(as.Rhs[0], pt)
+		r.Check(g != nil && (op == token.GTR || op == token.GEQ) && okRhs, ah, "maxVersion raised to a larger entry version", s, "maxVersion is not `if ParseTs(key) > maxVersion { maxVersion = that }`")
+	}
+	r.Exists(nmv == 1, ah, "maxVersion maintained", nil, "addHelper does not maintain maxVersion")
+	bi := w.F("table.Builder.buildIndex")
+	okMV, okKC := false, false
+	bi.walk(func(n ast.Node) bool {
+		call, ok := n.(*ast.CallExpr)
+		if !ok || len(call.Args) != 2 {
+			return true
+		}
+		fn, _ := w.Callee(call).(*types.Func)
+		if fn == nil {
+			return true
+		}
+		switch fn.Name() {
+		case "TableIndexAddMaxVersion":
+			okMV = w.fieldOf(call.Args[1]) == mv
+		case "TableIndexAddKeyCount":
+			okKC = w.mentions(call.Args[1], kh)
+		}
+		return true
+	})
+	r.Check(okMV, bi, "index stores the builder's maxVersion", nil, "TableIndexAddMaxVersion is not given Builder.maxVersion")
+	r.Check(okKC, bi, "index stores the number of keys", nil, "TableIndexAddKeyCount is not given len(keyHashes)")
+	// block offsets
+	wo := w.F("table.Builder.writeBlockOffsets")
+	bl := w.Field("table.Builder.blockList")
+	var start types.Object
+	okRange, okAcc := false, false
+	wo.walk(func(n ast.Node) bool {
+		rs, ok := n.(*ast.RangeStmt)
+		if !ok || w.fieldOf(rs.X) != bl || rs.Key == nil {
+			return true
+		}
+		okRange = true
+		ast.Inspect(rs.Body, func(m ast.Node) bool {
+			if as, ok := m.(*ast.AssignStmt); ok && as.Tok == token.ADD_ASSIGN && len(as.Lhs) == 1 && w.mentions(as.Rhs[0], w.Field("table.bblock.end")) {
+				if id, ok := as.Lhs[0].(*ast.Ident); ok {
+					start = w.Use(id)
+					okAcc = true
+				}
+			}
+			return true
+		})
+		return true
+	})
+	r.Check(okRange && okAcc, wo, "block start offsets accumulate the block lengths in blockList order", nil, "writeBlockOffsets does not range over blockList adding bblock.end to the running offset")
+	if start != nil {
+		for _, s := range wo.Sites(selCallName(w, "table.Builder.writeBlockOffset")) {
+			call := s.(*ast.CallExpr)
+			okArg := false
+			for _, a := range call.Args {
+				if id, ok := unparen(a).(*ast.Ident); ok && w.Use(id) == start {
+					okArg = true
+				}
+			}
+			r.Check(okArg, wo, "each block is indexed at the running offset", s, "writeBlockOffset is not passed the running start offset")
+			if okArg {
+				// the offset is used before it is advanced
+				for _, acc := range wo.Sites(selStoreVar(start)) {
+					if as, ok := acc.(*ast.AssignStmt); ok && as.Tok == token.ADD_ASSIGN {
+						r.DomAll(wo, "offset advanced after the block was indexed", selNode(acc), 0, selNode(s), 0)
+					}
+				}
+			}
+		}
+	}
+	wb := w.F("table.Builder.writeBlockOffset")
+	got := map[string]bool{}
+	wb.walk(func(n ast.Node) bool {
+		call, ok := n.(*ast.CallExpr)
+		if !ok || len(call.Args) != 2 {
+			return true
+		}
+		fn, _ := w.Callee(call).(*types.Func)
+		if fn == nil {
+			return true
+		}
+		switch fn.Name() {
+		case "BlockOffsetAddKey":
+			got["key"] = w.isCallNamedWithArg(call.Args[1], wb, "CreateByteVector", w.Field("table.bblock.baseKey"))
+		case "BlockOffsetAddOffset":
+			if id, ok := unparen(call.Args[1]).(*ast.Ident); ok {
+				if v, ok := w.Use(id).(*types.Var); ok && isParam(wb, v) {
+					got["offset"] = true
+				}
+			}
+		case "BlockOffsetAddLen":
+			got["len"] = w.mentions(call.Args[1], w.Field("table.bblock.end"))
+		}
+		return true
+	})
+	r.Check(got["key"] && got["offset"] && got["len"], wb, "a block is indexed by its base key, start offset and length", nil, "writeBlockOffset does not store baseKey, the start offset and bblock.end")
+	// Copy ranges over the same list
+	cp := w.F("table.buildData.Copy")
+	okCp := false
+	cp.walk(func(n ast.Node) bool {
+		if rs, ok := n.(*ast.RangeStmt); ok && w.fieldOf(rs.X) == w.Field("table.buildData.blockList") {
+			okCp = true
+		}
+		return true
+	})
+	dn := w.F("table.Builder.Done")
+	okBL := false
+	dn.walk(func(n ast.Node) bool {
+		if kv, ok := n.(*ast.KeyValueExpr); ok {
+			if id, ok := kv.Key.(*ast.Ident); ok && w.Use(id) == types.Object(w.Field("table.buildData.blockList")) && w.fieldOf(kv.Value) == bl {
+				okBL = true
+			}
+		}
+		return true
+	})
+	r.Check(okCp && okBL, cp, "blocks are written in the order they were indexed", nil, "buildData.Copy does not range over the builder's blockList")
+	// reader side
+	ii := w.F("table.Table.initIndex")
+	for _, name := range []string{"MaxVersion", "KeyCount"} {
+		okF := false
+		ii.walk(func(n ast.Node) bool {
+			if kv, ok := n.(*ast.KeyValueExpr); ok {
+				if id, ok := kv.Key.(*ast.Ident); ok && id.Name == name && isCallNamed(w, kv.Value, name) {
+					okF = true
+				}
+			}
+			return true
+		})
+		r.Check(okF, ii, "cheap index carries "+name, nil, "initIndex does not copy "+name+" from the table index")
+	}
+	// first block offset: Offsets(&bo, 0)
+	okFirst := false
+	ii.walk(func(n ast.Node) bool {
+		if call, ok := n.(*ast.CallExpr); ok && len(call.Args) == 2 {
+			if fn, _ := w.Callee(call).(*types.Func); fn != nil && fn.Name() == "Offsets" {
+				if v, isC := w.constInt(call.Args[1]); isC && v == 0 {
+					okFirst = true
+				}
+			}
+		}
+		return true
+	})
+	r.Check(okFirst, ii, "initIndex returns the first block's index entry", nil, "initIndex does not return Offsets(…, 0)")
+	bs := w.F("table.Table.initBiggestAndSmallest")
+	sm, bg := w.Field("table.Table.smallest"), w.Field("table.Table.biggest")
+	okS, okB := false, false
+	var itVar types.Object
+	bs.walk(func(n ast.Node) bool {
+		as, ok := n.(*ast.AssignStmt)
+		if !ok || len(as.Lhs) != 1 || len(as.Rhs) != 1 {
+			return true
+		}
+		if call, ok := unparen(as.Rhs[0]).(*ast.CallExpr); ok && isCallNamed(w, call, "NewIterator") && len(call.Args) == 1 {
+			if w.mentions(call.Args[0], w.Obj("table.REVERSED")) {
+				if id, ok := as.Lhs[0].(*ast.Ident); ok {
+					itVar = w.Use(id)
+				}
+			}
+		}
+		return true
+	})
+	for _, s := range bs.Sites(selStore(sm)) {
+		as := s.(*ast.AssignStmt)
+		if call, ok := unparen(as.Rhs[0]).(*ast.CallExpr); ok && isCallNamed(w, call, "Copy") && len(call.Args) == 1 && isCallNamed(w, call.Args[0], "KeyBytes") {
+			// the receiver of KeyBytes comes from initIndex
+			if rc := recvOf(unparen(call.Args[0]).(*ast.CallExpr)); rc != nil {
+				if id, ok := unparen(rc).(*ast.Ident); ok {
+					if v, ok := w.Use(id).(*types.Var); ok {
+						for _, d := range w.DefsOf(bs, v) {
+							if w.isCallTo(d, w.Func("table.Table.initIndex")) {
+								okS = true
+							}
+						}
+					}
+				}
+			}
+		}
+	}
+	for _, s := range bs.Sites(selStore(bg)) {
+		as := s.(*ast.AssignStmt)
+		if call, ok := unparen(as.Rhs[0]).(*ast.CallExpr); ok && isCallNamed(w, call, "Copy") && len(call.Args) == 1 && isCallNamed(w, call.Args[0], "Key") {
+			if rc := recvOf(unparen(call.Args[0]).(*ast.CallExpr)); rc != nil {
+				if id, ok := unparen(rc).(*ast.Ident); ok && itVar != nil && w.Use(id) == itVar {
+					okB = true
+					// after Rewind
+					rew := selPred("it.Rewind()", func(w *World, f *Fn, n ast.Node) bool {
+						c, ok := n.(*ast.CallExpr)
+						if !ok || !isCallNamed(w, c, "Rewind") {
+							return false
+						}
+						rid, ok := unparen(recvOf(c)).(*ast.Ident)
+						return ok && w.Use(rid) == itVar
+					})
+					r.DomAll(bs, "biggest key read after the reverse iterator was rewound", selNode(s), 0, rew, 0)
+				}
+			}
+		}
+	}
+	r.Check(okS, bs, "smallest key is a copy of the first block's base key", nil, "Table.smallest is not y.Copy(<first block offset from initIndex>.KeyBytes())")
+	r.Check(okB, bs, "biggest key is a copy of a REVERSED iterator's key", nil, "Table.biggest is not y.Copy(it.Key()) of an iterator created with REVERSED")
+}
+
+// isCallNamedWithArg: e (or the single definition of the local it names) is a call to a function
+// called name one of whose arguments is the field fld.
+func (w *World) isCallNamedWithArg(e ast.Expr, f *Fn, name string, fld *types.Var) bool {
+	call, ok := unparen(w.Origin(f, e)).(*ast.CallExpr)
+	if !ok || !isCallNamed(w, call, name) {
+		return false
+	}
+	for _, a := range call.Args {
+		if w.fieldOf(a) == fld {
+			return true
+		}
+	}
+	return false
+}
+
+func ruleR18_6(c *Check) {
+	w := c.W
+	r := c.Rule("R18.6", "E5", 12, "seek polarity: blockIterator.seek lands on the first entry whose key is >= the target; Iterator.seekFrom picks the first block whose base key is > the target, seeks in the block before it and moves to that block only when the previous one is exhausted; seekForPrev steps back unless the key found equals the target; Next/Rewind/Seek take the forward variants exactly when the REVERSED bit is clear; at the end of a block the iterator moves to the next (previous) block; ConcatIterator.Seek picks the first table whose biggest key is >= the target (the last whose smallest key is <= it in reverse) and Next moves on to the next non-empty table in the iteration direction",
+		"an off-by-one in any of these comparisons skips the entry at a block or table boundary, or lands on the wrong side of the target")
+	ck := w.Func("y.CompareKeys")
+	// block seek
+	bs := w.F("table.blockIterator.seek")
+	keyFld := w.Field("table.blockIterator.key")
+	okB := false
+	bs.walkDeep(func(own *Fn, n ast.Node) bool {
+		rs, ok := n.(*ast.ReturnStmt)
+		if !ok || own == bs || len(rs.Results) != 1 {
+			return true
+		}
+		if op, _, ok := w.threeWay(rs.Results[0], true, w.isField(keyFld), ck); ok {
+			r.Check(op == token.GEQ, own, "in-block search predicate is entry key >= target", rs, "block seek predicate is `entry "+op.String()+" target`")
+			okB = okB || op == token.GEQ
+		}
+		return true
+	})
+	r.Check(okB, bs, "block seek compares entry keys with the target", nil, "no CompareKeys(itr.key, key) >= 0 predicate in blockIterator.seek")
+	// table seek
+	sf := w.F("table.Iterator.seekFrom")
+	okT := false
+	sf.walkDeep(func(own *Fn, n ast.Node) bool {
+		rs, ok := n.(*ast.ReturnStmt)
+		if !ok || own == sf || len(rs.Results) != 1 {
+			return true
+		}
+		if op, _, ok := w.threeWay(rs.Results[0], true, func(e ast.Expr) bool { return isCallNamed(w, w.from(e), "KeyBytes") }, ck); ok {
+			r.Check(op == token.GTR, own, "block search predicate is base key > target", rs, "table seek predicate is `block base key "+op.String()+" target`")
+			okT = okT || op == token.GTR
+		}
+		return true
+	})
+	r.Check(okT, sf, "table seek compares block base keys with the target", nil, "no CompareKeys(ko.KeyBytes(), key) > 0 predicate in Iterator.seekFrom")
+	sh := w.Func("table.Iterator.seekHelper")
+	var idxVar types.Object
+	sf.walk(func(n ast.Node) bool {
+		if as, ok := n.(*ast.AssignStmt); ok && len(as.Lhs) == 1 && len(as.Rhs) == 1 {
+			if call, ok := unparen(as.Rhs[0]).(*ast.CallExpr); ok {
+				if fn, _ := w.Callee(call).(*types.Func); fn != nil && fn.Name() == "Search" && fn.Pkg() != nil && fn.Pkg().Path() == "sort" {
+					if id, ok := as.Lhs[0].(*ast.Ident); ok {
+						idxVar = w.Use(id)
+					}
+				}
+			}
+		}
+		return true
+	})
+	r.Check(idxVar != nil, sf, "block index from sort.Search", nil, "seekFrom does not keep the result of sort.Search")
+	if idxVar != nil {
+		isIdx := func(e ast.Expr) bool { id, ok := unparen(e).(*ast.Ident); return ok && w.Use(id) == idxVar }
+		prev, same, first := 0, 0, 0
+		for _, s := range sf.Sites(selCall(sh)) {
+			call := s.(*ast.CallExpr)
+			a, b, okl := w.linear(sf, call.Args[0], isIdx, 0)
+			gs := w.Guards(sf, call)
+			switch {
+			case okl && a == 1 && b == -1:
+				prev++
+				op, g := w.guardRel(gs, isIdx, w.isConst(0), false)
+				r.Check(g != nil && (op == token.NEQ || op == token.GTR), sf, "the block before the first larger base key is searched when there is one", call, "seekHelper(idx-1) is reachable with idx == 0")
+			case okl && a == 1 && b == 0:
+				same++
+				// only after the previous block was exhausted (err == io.EOF) and when idx is a block
+				eof := false
+				for _, g := range gs {
+					if w.mentions(g.Cond, w.Obj("io.EOF")) && g.Val {
+						if be, ok := unparen(g.Cond).(*ast.BinaryExpr); ok && be.Op == token.EQL {
+							eof = true
+						}
+					}
+				}
+				op, g := w.guardRel(gs, isIdx, func(e ast.Expr) bool { return isCallNamed(w, w.from(e), "offsetsLength") }, false)
+				r.Check(eof && g != nil && (op == token.NEQ || op == token.LSS), sf, "the next block is entered only when the previous one holds nothing >= target and it exists", call, "seekHelper(idx) is not under `err == io.EOF` and `idx != number of blocks`")
+			case okl && a == 0 && b == 0:
+				first++
+				op, g := w.guardRel(gs, isIdx, w.isConst(0), false)
+				r.Check(g != nil && op == token.EQL, sf, "target before the first block: seek in block 0", call, "seekHelper(0) is not under idx == 0")
+			}
+		}
+		r.Check(prev == 1 && same == 1 && first == 1, sf, "seekFrom tries block idx-1, then idx, or block 0", nil, "expected seekHelper(0), seekHelper(idx-1) and seekHelper(idx)")
+	}
+	// seekForPrev
+	sp := w.F("table.Iterator.seekForPrev")
+	okSP := false
+	for _, s := range sp.Sites(selCallName(w, "table.Iterator.prev")) {
+		for _, g := range w.Guards(sp, s) {
+			if call, ok := unparen(g.Cond).(*ast.CallExpr); ok && !g.Val {
+				if fn, _ := w.Callee(call).(*types.Func); fn != nil && fn.Name() == "Equal" {
+					okSP = true
+				}
+			}
+			if op, _, ok := w.threeWay(g.Cond, g.Val, func(e ast.Expr) bool { return isCallNamed(w, w.from(e), "Key") }, ck, w.Func("bytes.Compare")); ok && op == token.NEQ {
+				okSP = true
+			}
+		}
+		r.DomAll(sp, "step back only after the forward seek", selNode(s), 0, selCallName(w, "table.Iterator.seekFrom"), 0)
+	}
+	r.Check(okSP, sp, "seekForPrev steps back unless it found the target itself", nil, "seekForPrev does not call prev() under `!bytes.Equal(Key(), key)`")
+	// dispatch on REVERSED
+	rev := w.Obj("table.REVERSED")
+	for _, d := range []struct{ fn, fwd, bwd string }{
+		{"table.Iterator.Next", "table.Iterator.next", "table.Iterator.prev"},
+		{"table.Iterator.Rewind", "table.Iterator.seekToFirst", "table.Iterator.seekToLast"},
+		{"table.Iterator.Seek", "table.Iterator.seek", "table.Iterator.seekForPrev"},
+	} {
+		f := w.F(d.fn)
+		for _, dir := range []struct {
+			callee string
+			want   int
+		}{{d.fwd, 0}, {d.bwd, 1}} {
+			sites := f.Sites(selCallName(w, dir.callee))
+			r.Check(len(sites) == 1, f, "calls "+dir.callee+" once", nil, "expected one call of "+dir.callee)
+			for _, s := range sites {
+				r.Check(w.bitGuard(w.Guards(f, s), rev) == dir.want, f, "direction chosen by the REVERSED bit", s, dir.callee+" is not called exactly when REVERSED is "+map[int]string{0: "clear", 1: "set"}[dir.want])
+			}
+		}
+	}
+	// block boundary: next -> bpos++, prev -> bpos--
+	bpos := w.Field("table.Iterator.bpos")
+	for _, d := range []struct {
+		fn  string
+		tok token.Token
+	}{{"table.Iterator.next", token.INC}, {"table.Iterator.prev", token.DEC}} {
+		f := w.F(d.fn)
+		okStep := false
+		for _, s := range f.Sites(selStore(bpos)) {
+			switch x := s.(type) {
+			case *ast.IncDecStmt:
+				okStep = x.Tok == d.tok
+			case *ast.AssignStmt:
+				if len(x.Rhs) == 1 {
+					if v, isC := w.constInt(x.Rhs[0]); isC && v == 1 && ((x.Tok == token.ADD_ASSIGN && d.tok == token.INC) || (x.Tok == token.SUB_ASSIGN && d.tok == token.DEC)) {
+						okStep = true
+					}
+				}
+			}
+			if okStep {
+				// only when the block iterator ran off its block
+				g := HasGuard(w.Guards(f, s), false, func(e ast.Expr) bool { return isCallNamed(w, e, "Valid") })
+				r.Check(g != nil, f, "block position moves when the block is exhausted", s, "bpos changes although the block iterator is still valid")
+			}
+		}
+		r.Check(okStep, f, "moves to the adjacent block in its direction", nil, d.fn+" does not step bpos by one in its direction")
+	}
+	// ConcatIterator.Seek
+	cs := w.F("table.ConcatIterator.Seek")
+	okF, okR := false, false
+	cs.walkDeep(func(own *Fn, n ast.Node) bool {
+		rs, ok := n.(*ast.ReturnStmt)
+		if !ok || own == cs || len(rs.Results) != 1 {
+			return true
+		}
+		dir := w.bitGuard(w.Guards(cs, own.Host), rev)
+		if op, _, ok := w.threeWay(rs.Results[0], true, func(e ast.Expr) bool { return isCallNamed(w, w.from(e), "Biggest") }, ck); ok {
+			r.Check(op == token.GEQ && dir == 0, own, "forward: first table whose biggest key >= target", rs, "forward table search is `Biggest "+op.String()+" target`")
+			okF = okF || (op == token.GEQ && dir == 0)
+		}
+		if op, _, ok := w.threeWay(rs.Results[0], true, func(e ast.Expr) bool { return isCallNamed(w, w.from(e), "Smallest") }, ck); ok {
+			r.Check(op == token.LEQ && dir == 1, own, "reverse: last table whose smallest key <= target", rs, "reverse table search is `Smallest "+op.String()+" target`")
+			okR = okR || (op == token.LEQ && dir == 1)
+		}
+		return true
+	})
+	r.Check(okF && okR, cs, "table chosen by Biggest >= key / Smallest <= key", nil, "ConcatIterator.Seek lacks one of the two table search predicates")
+	// ConcatIterator.Next: direction
+	cn := w.F("table.ConcatIterator.Next")
+	idxF := w.Field("table.ConcatIterator.idx")
+	up, down := false, false
+	for _, s := range cn.Sites(selCallName(w, "table.ConcatIterator.setIdx")) {
+		call := s.(*ast.CallExpr)
+		a, b, okl := w.linear(cn, call.Args[0], w.isField(idxF), 0)
+		dir := w.bitGuard(w.Guards(cn, s), rev)
+		if okl && a == 1 && b == 1 {
+			r.Check(dir == 0, cn, "forward: next table", s, "idx+1 is not taken exactly when REVERSED is clear")
+			up = dir == 0
+		}
+		if okl && a == 1 && b == -1 {
+			r.Check(dir == 1, cn, "reverse: previous table", s, "idx-1 is not taken exactly when REVERSED is set")
+			down = dir == 1
+		}
+	}
+	r.Check(up && down, cn, "ConcatIterator.Next moves one table in the iteration direction", nil, "expected setIdx(idx+1) / setIdx(idx-1) under the REVERSED test")
+	for _, s := range cn.Sites(selCallName(w, "table.Iterator.Rewind")) {
+		r.Check(insideLoop(w, cn, s), cn, "empty tables are skipped", s, "the next table is rewound outside the skip-empty loop")
+	}
+}
+
+func constantInt64(c *types.Const) (int64, bool) {
+	s := c.Val().ExactString()
+	var v int64
+	for _, ch := range s {
+		if ch < '0' || ch > '9' {
+			return 0, false
+		}
+		v = v*10 + int64(ch-'0')
+	}
+	return v, len(s) > 0
+}
+
 func propC18(c *Check) {
 	ruleR18_1(c)
 	ruleR18_2(c)
+	ruleR18_3(c)
+	ruleR18_4(c)
+	ruleR18_5(c)
+	ruleR18_6(c)
 }
